@@ -106,7 +106,18 @@ impl<'a> Iterator for SymExprIter<'a> {
 
 impl SymExpr {
     /// Return the range of possible values this element may have.
+    ///
+    /// The range is computed with interval arithmetic and saturates at the
+    /// limits of `i32`.
     pub fn range(&self) -> (i32, i32) {
+        fn sat(x: i64) -> i32 {
+            x.clamp(i32::MIN as i64, i32::MAX as i64) as i32
+        }
+        let wide = |expr: &SymExpr| {
+            let (min, max) = expr.range();
+            (min as i64, max as i64)
+        };
+
         match self {
             Self::Value(x) => (*x, *x),
             Self::Var(sym) => {
@@ -117,26 +128,53 @@ impl SymExpr {
                 }
             }
             Self::Neg(x) => {
-                if x.is_positive() {
-                    (i32::MIN, -1)
-                } else {
-                    (i32::MIN, i32::MAX)
-                }
+                let (min, max) = wide(x);
+                (sat(-max), sat(-min))
             }
-            Self::Add(lhs, rhs)
-            | Self::Mul(lhs, rhs)
-            | Self::Max(lhs, rhs)
-            | Self::Min(lhs, rhs)
-            | Self::Div(lhs, rhs)
-            | Self::DivCeil(lhs, rhs) => {
+            Self::Add(lhs, rhs) => {
+                let (lhs_min, lhs_max) = wide(lhs);
+                let (rhs_min, rhs_max) = wide(rhs);
+                (sat(lhs_min + rhs_min), sat(lhs_max + rhs_max))
+            }
+            Self::Sub(lhs, rhs) => {
+                let (lhs_min, lhs_max) = wide(lhs);
+                let (rhs_min, rhs_max) = wide(rhs);
+                (sat(lhs_min - rhs_max), sat(lhs_max - rhs_min))
+            }
+            Self::Mul(lhs, rhs) => {
+                let (lhs_min, lhs_max) = wide(lhs);
+                let (rhs_min, rhs_max) = wide(rhs);
+                let corners = [
+                    lhs_min * rhs_min,
+                    lhs_min * rhs_max,
+                    lhs_max * rhs_min,
+                    lhs_max * rhs_max,
+                ];
+                let min = corners.iter().copied().min().unwrap();
+                let max = corners.iter().copied().max().unwrap();
+                (sat(min), sat(max))
+            }
+            Self::Max(lhs, rhs) => {
                 let (lhs_min, lhs_max) = lhs.range();
                 let (rhs_min, rhs_max) = rhs.range();
-                (lhs_min.min(rhs_min), lhs_max.max(rhs_max))
+                (lhs_min.max(rhs_min), lhs_max.max(rhs_max))
             }
-            Self::Sub(_lhs, _rhs) => {
-                // Note: Unlike for addition, subtraction involving two
-                // positive symbols may produce a negative result.
-                (i32::MIN, i32::MAX)
+            Self::Min(lhs, rhs) => {
+                let (lhs_min, lhs_max) = lhs.range();
+                let (rhs_min, rhs_max) = rhs.range();
+                (lhs_min.min(rhs_min), lhs_max.min(rhs_max))
+            }
+            Self::Div(lhs, rhs) | Self::DivCeil(lhs, rhs) => {
+                // The divisor is a non-zero integer, so the magnitude of the
+                // quotient does not exceed the magnitude of the dividend.
+                let (lhs_min, lhs_max) = wide(lhs);
+                let (rhs_min, _rhs_max) = wide(rhs);
+                if lhs_min >= 0 && rhs_min >= 0 {
+                    (0, sat(lhs_max))
+                } else {
+                    let bound = lhs_min.abs().max(lhs_max.abs());
+                    (sat(-bound), sat(bound))
+                }
             }
             Self::Broadcast(lhs, rhs) => {
                 let (lhs_min, lhs_max) = lhs.range();
